@@ -85,6 +85,17 @@ SPECS = {
                      "a variable as a grammar body (phrase//1 at run time) is not generated"],
         explanation="grammars over every construct x all input lists up to length 3 in recognition, remainder, bound-remainder and generation mode; expand_term/2 output compared with the mirrored translation; phrase/2,3 answers compared with the translated program on M and S",
     ),
+    "C14": dict(
+        level="proof", props_deps=["Proofs/Atoms.v", "Gen/Shared_gen.v"], model_deps=["Model/SharedCheck.v"],
+        trusted=COMMON_TRUSTED + ["tools/go2coq shared: package-level variables by go/types, access kinds and lock contexts syntactically per function (X.Lock ... Unlock / defer), the critical sections of NewAtom by statement shape; unexported functions nothing refers to are listed as dead",
+                                  "sync.RWMutex and sync/atomic behave as documented (a write-locked section excludes every other section on the same mutex); the Go memory model is not formalised",
+                                  "state reachable only through pointers (fields of *VM, *Promise, *Stream) is not summarised: that interpreters share none of it is checked by the isolation matrix and the race detector, not proved",
+                                  "the four reviewed sites in Model/Shared.v (addr_reviewed) where the address of a package-level variable is taken",
+                                  "the Go race detector (-race) for the concurrent runs"],
+        assumptions=["one goroutine per interpreter (the property's usage rule)"],
+        search=False,
+        explanation="the shared-state summary regenerated from the source on this run, the discipline evaluated on it, NewAtom's critical sections checked against the shapes the interleaving theorems cover; 2-8 interpreters run concurrently under the race detector and compared with runs alone; concurrent interning of identical fresh atoms; state changers against observers across interpreters",
+    ),
     "C12": dict(
         level="proof", props_deps=["Proofs/Solutions.v"], model_deps=["Model/SolutionsCheck.v"],
         trusted=COMMON_TRUSTED + ["hand-written handshake model Model/Solutions.v under run-to-block semantics; Go channels, scheduler and memory model are not modelled"],
